@@ -17,9 +17,9 @@ def onOff (s : String) : Bool := s == "on"
 
 def parseOp (ws : List String) : Option Op :=
   match ws with
-  | "world" :: _ => some .world
+  | "world" :: rest => some (.world (rest.contains "a64"))
   | ["init"] => some (.init .x64)
-  | ["init", a] => some (.init (if a == "x86" then .x86 else .x64))
+  | ["init", a] => some (.init (if a == "x86" then .x86 else if a == "a64" then .a64 else .x64))
   | ["reset"] => some (.reset false)
   | ["reset", p] => some (.reset (p == "hard"))
   | ["reinit"] => some .reinit
@@ -52,9 +52,11 @@ def parseOp (ws : List String) : Option Op :=
 def step (w : World) (line : String) : World × String :=
   match words line with
   | ["cmp", a, b] =>
-    (w, match noResidue a b with
-        | none => "good"
-        | some c => "BAD residue: component '" ++ c ++ "' of the output differs between recycled and fresh objects")
+    (w, match noDeadRefs a, noDeadRefs b, noResidue a b with
+        | some c, _, _ => "BAD dead reference: component '" ++ c ++ "' after the recycled run"
+        | _, some c, _ => "BAD dead reference: component '" ++ c ++ "' after the fresh run"
+        | none, none, none => "good"
+        | none, none, some c => "BAD residue: component '" ++ c ++ "' of the output differs between recycled and fresh objects")
   | "heap" :: _ => (w, "ok")
   | ws =>
     match parseOp ws with
